@@ -8,6 +8,7 @@ import (
 	"github.com/glebziz/fs_db"
 
 	"github.com/glebziz/fs_db/internal/model"
+	"github.com/glebziz/fs_db/internal/utils/vhook"
 )
 
 func (u *UseCase) Rollback(ctx context.Context) error {
@@ -18,6 +19,7 @@ func (u *UseCase) Rollback(ctx context.Context) error {
 	} else if err != nil {
 		return fmt.Errorf("tx repository delete: %w", err)
 	}
+	vhook.AtID("tx.rollback.unregistered", txId)
 
 	deleteFiles := u.fRepo.DeleteTx(ctx, txId)
 	if len(deleteFiles) > 0 {
